@@ -47,6 +47,7 @@ def main():
   ap.add_argument('--own', action='store_true', help='only the property the seed targets')
   ap.add_argument('--tier', default='quick')
   ap.add_argument('--jobs', type=int, default=8)
+  ap.add_argument('--json', help='write the matrix (seed -> property -> [rc, first report]) here')
   a = ap.parse_args()
   avail = props_available()
   seeds = sorted(s for s in os.listdir(os.path.join(VERIF, 'seeded')) if os.path.exists(os.path.join(VERIF, 'seeded', s, 'patch.diff')))
@@ -73,6 +74,9 @@ def main():
     print(f'{status:16s} {s:10s} own={own} caught_by={caught} errors={errs}')
     for p in caught[:3] + errs[:2]:
       print(f'      {p}: {out[p][1]}')
+  if a.json:
+    with open(a.json, 'w') as f:
+      json.dump({s: {p: list(v) for p, v in results[s].items()} for s, _, _ in jobs}, f, indent=1, sort_keys=True)
   return 0
 
 
